@@ -12,12 +12,25 @@
     cancellation, and not twice);
   * `dropoff_once_then_idle` — the drop-off report is filed in the update in which the route
     becomes empty; in the next update the vehicle leaves for `Idle` before anything else.
-  The conservation law over whole event streams (each admitted id: exactly one of waiting /
-  picked up / cancelled; fares = Σ values of pickups) is enforced on implementation traces by
-  the Lean ledger automaton `Hive.Ledger` (Hive/Ledger.lean) run by the driver.
+  Run-level theorems (state + event log, every history of the complete step cycle - any
+  instruction lists, vehicle updates, ticks, arrivals under fresh ids, cancellations, price
+  updates, driver phases - from a state with an empty log):
+  * `run_resolved_once` — the pickup and cancel events of a run name pairwise different
+    requests: never two pickups, never two cancellations, never a pickup and a cancellation of
+    one request;
+  * `run_waiting_unresolved` — a request that is still waiting has neither;
+  * `run_none_vanishes` — a request that was waiting at the start or has an add event is still
+    waiting or has been picked up or cancelled, and conversely: none vanishes without a trace,
+    none appears from nowhere;
+  * (`C05.run_vehicle`) — a vehicle's balance moves by exactly the fares of its pickup events
+    minus its charging payments: a fare is credited once, to the vehicle of the pickup event.
+  What remains on implementation traces only (Lean ledger automaton `Hive.Ledger`, monitor
+  `violResolved`): that a picked-up request is dropped off exactly once by the same vehicle
+  (stated per update by `dropoff_once_then_idle`).
 -/
 import Proofs.C17
 import Proofs.Stack
+import Proofs.Reqs
 
 namespace Hive
 namespace C03
@@ -114,6 +127,28 @@ theorem dropoff_once_then_idle (env : Env) (w : World) (v : VehicleId) (q : Requ
     terminal env w.sim v (.servicingTrip q d []) = true ∧
     defaultNext env w.sim v (.servicingTrip q d []) = .ok (.idle 0) := by
   simp [terminal, defaultNext]
+
+/-! ### over whole runs -/
+
+section Run
+variable {env : Env} {w0 w : World}
+
+/-- **never both, never twice** -/
+theorem run_resolved_once (h0 : w0.log = []) (h : WReachable env w0 w) : (Reqs.resolved w.log).Nodup :=
+  (Reqs.run_ledger h0 h).once
+
+/-- a waiting request has been neither picked up nor cancelled -/
+theorem run_waiting_unresolved (h0 : w0.log = []) (h : WReachable env w0 w) {r : RequestId}
+    (hr : r ∈ Reqs.ids w.sim) : r ∉ Reqs.resolved w.log :=
+  (Reqs.run_ledger h0 h).waiting r hr
+
+/-- **none vanishes, none appears from nowhere** -/
+theorem run_none_vanishes (h0 : w0.log = []) (h : WReachable env w0 w) (r : RequestId) :
+    (r ∈ Reqs.ids w0.sim ∨ r ∈ Reqs.admitted w.log) ↔ (r ∈ Reqs.ids w.sim ∨ r ∈ Reqs.resolved w.log) :=
+  (Reqs.run_ledger h0 h).kept r
+
+end Run
+
 
 end C03
 end Hive
